@@ -49,13 +49,56 @@ theorem clearTx_coherent (O : Ops μ ρ) (K : Nat) (st : State μ ρ) (h : Coher
     Coherent O K (clearTx Cfg.fixed st) :=
   coherent_of_empty O K _ rfl rfl h.wwH
 
+/-- the two outcomes of `randomizeF` on the repaired code -/
+theorem randomizeF_cases (O : Ops μ ρ) (K : Nat) (st : State μ ρ) (drawn : μ) (ns : NsArg) (p : PArg ρ) :
+    (∃ q, doRandomizeF Cfg.fixed O K st drawn ns p
+        = ({ clearTx Cfg.fixed (storeP Cfg.fixed st q) with
+               f := some (O.normalize drawn), ns := some (ns.expand K) }, .unit))
+    ∨ doRandomizeF Cfg.fixed O K st drawn ns p = (st, .err .ValueError) := by
+  unfold doRandomizeF
+  simp only [Cfg.fixed, if_true]
+  rcases setP_cases O K st p with ⟨q, e⟩ | e
+  · left; refine ⟨q, ?_⟩
+    rw [show (⟨true, true, true, true⟩ : Cfg) = Cfg.fixed from rfl, e]
+  · right
+    rw [show (⟨true, true, true, true⟩ : Cfg) = Cfg.fixed from rfl, e]
+
+/-- the outcomes of `solve` on the repaired code -/
+theorem solve_cases (O : Ops μ ρ) (K : Nat) (st : State μ ρ) (cf : Bool) (ns : NsArg) (p : PArg ρ)
+    (sol : Solution μ) :
+    doSolve Cfg.fixed O K st cf ns p sol = (st, .err .AssertionError)
+    ∨ doSolve Cfg.fixed O K st cf ns p sol = (st, .err .ValueError)
+    ∨ ∃ q, doSolve Cfg.fixed O K st cf ns p sol
+        = ({ clearRx (clearTx Cfg.fixed (storeP Cfg.fixed st q)) with
+               f := some sol.f, fullF := sol.fullF,
+               w := if sol.filtIsH then none else some sol.filt,
+               wH := if sol.filtIsH then some sol.filt else none,
+               ns := some sol.ns }, .unit) := by
+  unfold doSolve
+  split
+  · left; rfl
+  · right
+    simp only [Cfg.fixed, if_true]
+    rcases setP_cases O K st p with ⟨q, e⟩ | e
+    · right; refine ⟨q, ?_⟩
+      rw [show (⟨true, true, true, true⟩ : Cfg) = Cfg.fixed from rfl, e]
+    · left
+      rw [show (⟨true, true, true, true⟩ : Cfg) = Cfg.fixed from rfl, e]
+
+/-- the outcomes of `set_receive_filters` on the repaired code -/
+theorem setFilters_cases (st : State μ ρ) (wH w : Option μ) :
+    doSetFilters Cfg.fixed st wH w = (st, .err .RuntimeError)
+    ∨ doSetFilters Cfg.fixed st wH w = ({ clearRx st with w := w, wH := wH }, .unit) := by
+  unfold doSetFilters
+  cases wH <;> cases w <;> simp [Cfg.fixed]
+
 theorem randomizeF_coherent (O : Ops μ ρ) (K : Nat) (st : State μ ρ) (drawn : μ) (ns : NsArg)
     (p : PArg ρ) (h : Coherent O K st) : Coherent O K (doRandomizeF Cfg.fixed O K st drawn ns p).1 := by
   unfold doRandomizeF
-  have hc := clearTx_coherent O K st h
-  rcases setP_cases O K (clearTx Cfg.fixed st) p with ⟨q, e⟩ | e <;> rw [e]
+  simp only [Cfg.fixed, if_true]
+  rcases setP_cases O K st p with ⟨q, e⟩ | e <;> rw [show (⟨true, true, true, true⟩ : Cfg) = Cfg.fixed from rfl, e]
   · exact coherent_of_empty O K _ rfl rfl h.wwH
-  · exact hc
+  · exact h
 
 theorem setPrecoders_coherent (O : Ops μ ρ) (K : Nat) (st : State μ ρ) (f fullF : Option μ)
     (p : Option (List ρ)) (h : Coherent O K st) :
@@ -64,10 +107,11 @@ theorem setPrecoders_coherent (O : Ops μ ρ) (K : Nat) (st : State μ ρ) (f fu
   cases f <;> cases fullF <;> cases p <;>
     first | exact h | exact coherent_of_empty O K _ rfl rfl h.wwH
 
-theorem setFilters_coherent (O : Ops μ ρ) (K : Nat) (st : State μ ρ) (wH w : Option μ) :
-    Coherent O K (doSetFilters st wH w).1 := by
+theorem setFilters_coherent (O : Ops μ ρ) (K : Nat) (st : State μ ρ) (wH w : Option μ)
+    (h : Coherent O K st) : Coherent O K (doSetFilters Cfg.fixed st wH w).1 := by
   unfold doSetFilters
-  cases wH <;> cases w <;> exact coherent_of_empty O K _ rfl rfl (by simp [clearRx])
+  cases wH <;> cases w <;>
+    first | exact h | exact coherent_of_empty O K _ rfl rfl (by simp [clearRx])
 
 theorem solve_coherent (O : Ops μ ρ) (K : Nat) (st : State μ ρ) (cf : Bool) (ns : NsArg)
     (p : PArg ρ) (sol : Solution μ) (h : Coherent O K st) :
@@ -75,12 +119,11 @@ theorem solve_coherent (O : Ops μ ρ) (K : Nat) (st : State μ ρ) (cf : Bool) 
   unfold doSolve
   split
   · exact h
-  · have h0 : Coherent O K { st with ns := some (ns.expand K) } :=
-      coherent_congr O K st _ h rfl rfl rfl rfl rfl rfl rfl
-    rcases setP_cases O K { st with ns := some (ns.expand K) } p with ⟨q, e⟩ | e <;> rw [e]
+  · simp only [Cfg.fixed, if_true]
+    rcases setP_cases O K st p with ⟨q, e⟩ | e <;> rw [show (⟨true, true, true, true⟩ : Cfg) = Cfg.fixed from rfl, e]
     · refine coherent_of_empty O K _ rfl rfl ?_
       cases sol.filtIsH <;> simp
-    · exact h0
+    · exact h
 
 theorem clear_coherent (O : Ops μ ρ) (K : Nat) (st : State μ ρ) :
     Coherent O K { clearRx (clearTx Cfg.fixed st) with p := none, ns := none } :=
